@@ -135,6 +135,43 @@ def write_event(darsia, rng, bits, tid, work):
     return e
 
 
+PLAIN = (int, float, complex, str, bool, bytes, type(None), slice, np.generic, np.dtype, type)
+
+
+def state_diff(a, b, path="", out=None, depth=0):
+    """Paths of plain-data fields (numbers, flags, slices, dtypes, arrays, containers, darsia images / nested objects' fields)
+    in which two objects differ; fields that hold anything else (callables, handles) are not compared."""
+    out = [] if out is None else out
+    if depth > 8:
+        return out
+    if isinstance(a, np.ndarray) or isinstance(b, np.ndarray):
+        try:
+            x, y = np.asarray(a), np.asarray(b)
+            if x.shape != y.shape or x.dtype != y.dtype or not np.array_equal(x, y):
+                out.append(path)
+        except Exception:  # noqa
+            out.append(path)
+    elif isinstance(a, dict) and isinstance(b, dict):
+        for k in sorted(set(a) | set(b), key=str):
+            if k not in a or k not in b:
+                out.append(f"{path}.{k}")
+            else:
+                state_diff(a[k], b[k], f"{path}.{k}", out, depth + 1)
+    elif isinstance(a, (list, tuple)) and isinstance(b, (list, tuple)):
+        if len(a) != len(b):
+            out.append(path)
+        else:
+            for i, (x, y) in enumerate(zip(a, b)):
+                state_diff(x, y, f"{path}[{i}]", out, depth + 1)
+    elif isinstance(a, PLAIN) and isinstance(b, PLAIN):
+        if type(a) != type(b) or a != b:
+            if not (isinstance(a, float) and isinstance(b, float) and a != a and b != b):
+                out.append(path)
+    elif type(a) == type(b) and hasattr(a, "__dict__") and not callable(a) and type(a).__module__.startswith("darsia"):
+        state_diff(vars(a), vars(b), path, out, depth + 1)
+    return out
+
+
 def correction_events(darsia, rng, work, reps):
     ev = []
     for rep in range(reps):
@@ -143,7 +180,8 @@ def correction_events(darsia, rng, work, reps):
         probe = rs.rand(H, W, 3)
         cands = []
         cands.append(("TypeCorrection", lambda: darsia.TypeCorrection(rng.choice([np.float32, np.float64, np.uint8])), (rs.rand(H, W, 3)).astype(np.float64)))
-        cands.append(("DriftCorrection", lambda: darsia.DriftCorrection(rs.rand(H, W, 3), config={"active": False, "padding": 0.1, "roi": (slice(0, 2), slice(1, 3))}), probe))
+        cands.append(("DriftCorrection", lambda: darsia.DriftCorrection(rs.rand(H, W, 3), config={"active": False, "padding": rng.choice([0.0, 0.1, 0.25]), "roi": (slice(0, 2), slice(1, 3))}), probe))
+        cands.append(("DriftCorrection", lambda: darsia.DriftCorrection(rs.rand(H, W, 3), config={"active": False, "padding": rng.choice([0.1, 0.3]), "roi": np.array([[1, 1], [H - 2, W - 2]])}), probe))
         zero = {"horizontal_bulge": rng.choice([0.0, 1e-3]), "horizontal_center_offset": 0, "vertical_bulge": 0.0, "vertical_center_offset": 0}
         cands.append(("CurvatureCorrection", lambda: darsia.CurvatureCorrection(config={"bulge": dict(zero)}), probe))
 
@@ -155,7 +193,7 @@ def correction_events(darsia, rng, work, reps):
         cands.append(("IlluminationCorrection", illum, probe))
         cands.append(("ColorCorrection", lambda: darsia.ColorCorrection(config={"active": False, "roi": [[0, 0], [H - 1, 0], [H - 1, W - 1], [0, W - 1]], "whitebalancing": rng.random() < 0.5}), probe))
         for name, make, inp in cands:
-            e = {"tid": f"corr:{name}:{rep}", "op": "correction", "cls": name, "rcls": "", "raised": 0, "same_output": 0}
+            e = {"tid": f"corr:{name}:{rep}:{len(ev)}", "op": "correction", "cls": name, "rcls": "", "raised": 0, "same_output": 0, "state_diff": []}
             try:
                 with contextlib.redirect_stdout(io.StringIO()), warnings.catch_warnings():
                     warnings.simplefilter("ignore")
@@ -166,6 +204,7 @@ def correction_events(darsia, rng, work, reps):
                     o1 = np.asarray(c.correct_array(inp.copy()))
                     o2 = np.asarray(back.correct_array(inp.copy()))
                 e["rcls"] = type(back).__name__
+                e["state_diff"] = state_diff(vars(c), vars(back))[:6]
                 e["same_output"] = int(o1.shape == o2.shape and o1.dtype == o2.dtype and np.array_equal(o1, o2))
             except Exception as ex:  # noqa
                 e["raised"] = 1
